@@ -50,7 +50,7 @@ def check(tier, seed):
             pending = list(sc['script']['pending'])
             future = [(ok, list(evs)) for ok, evs in sc['script']['attempts']]
             for idx, (rq, part) in enumerate(zip(sc['reqs'], parts)):
-                alone_script = {'pending': list(pending), 'attempts': [(ok, list(evs)) for ok, evs in future], 'idle': sc['script']['idle']}
+                alone_script = {'pending': list(pending), 'attempts': [(ok, list(evs)) for ok, evs in future], 'idle': sc['script']['idle'], 'drain': sc['script'].get('drain')}
                 alone = Q.run_impl(alone_script, sc['retries'], sc['delay'], [(rq.op, rq.build)])
                 if alone != part:
                     res.violation(f'request {idx + 1} of a sequence behaves differently from the same request on a fresh server',
